@@ -97,7 +97,7 @@ deriving Repr
 /-- what the ledger knows about one (name, nonce) key of the dead nonce list -/
 inductive DState
   | absent                 -- certainly not listed
-  | present (e : Time)     -- certainly listed, expiring exactly at `e`
+  | present (lo hi : Time) -- certainly listed, with an expiry instant in [lo, hi]
   | unknown (u : Time)     -- may be listed; certainly gone after `u`
 deriving Repr
 
@@ -157,7 +157,7 @@ def Pend.certain (p : Pend) (now : Time) : Bool := now < p.certainUntil
 def dGetAt (sp : SpSt) (k : Name × Nat) (t : Time) : DState :=
   match sp.dnl.find? (·.1 == k) with
   | none => .absent
-  | some (_, .present e) => if t > e + slack then .absent else .present e
+  | some (_, .present lo hi) => if t > hi + slack then .absent else .present lo hi
   | some (_, .unknown u) => if t > u then .absent else .unknown u
   | some (_, .absent) => .absent
 
@@ -172,15 +172,24 @@ def dSet (sp : SpSt) (k : Name × Nat) (d : DState) : SpSt :=
 def dInsertAt (sp : SpSt) (k : Name × Nat) (sure : Bool) (t : Time) : SpSt :=
   let later := t + sp.dnlLife + slack
   match dGetAt sp k t with
-  | .absent => dSet sp k (if sure then .present (t + sp.dnlLife) else .unknown later)
-  | .present e => if t < e then dSet sp k (.present e) else dSet sp k (.unknown later)
+  | .absent => dSet sp k (if sure then .present (t + sp.dnlLife) (t + sp.dnlLife) else .unknown later)
+  | .present lo hi => if t < lo then dSet sp k (.present lo hi) else dSet sp k (.unknown later)
   | .unknown u => dSet sp k (.unknown (max u later))
 
 def dInsert (sp : SpSt) (k : Name × Nat) (sure : Bool) : SpSt := dInsertAt sp k sure sp.now
 
+/-- an insertion that certainly takes place at some instant of [a, b] -/
+def dInsertIn (sp : SpSt) (k : Name × Nat) (a b : Time) : SpSt :=
+  let later := b + sp.dnlLife + slack
+  match dGetAt sp k a, dGetAt sp k b with
+  | .absent, .absent => dSet sp k (.present (a + sp.dnlLife) (b + sp.dnlLife))
+  | _, .present lo hi => if b < lo then dSet sp k (.present lo hi) else dSet sp k (.unknown later)
+  | _, .unknown u => dSet sp k (.unknown (max u later))
+  | _, .absent => dSet sp k (.unknown later)
+
 def certainlyDead (sp : SpSt) (k : Name × Nat) : Bool :=
   match dGet sp k with
-  | .present e => sp.now < e
+  | .present lo _ => sp.now < lo
   | _ => false
 
 def advance (sp : SpSt) (dt : Nat) : SpSt :=
@@ -188,10 +197,15 @@ def advance (sp : SpSt) (dt : Nat) : SpSt :=
   let sp := { sp with now := now }
   /- PIT entries that may have expired by now were finalised: the nonces of their out-records may have
      been put on the dead nonce list (an entry with a certainly live in-record has not expired) -/
+  let before := now - dt
   let sp := sp.outs.foldl (fun sp o =>
     if sp.pends.any (fun p => p.key == o.key && p.certain now) then sp
-    else dInsertAt sp (o.key.name, o.nonce) false
-      (match horizonOf sp o.key with | some h => min now (h + slack) | none => now)) sp
+    else match horizonOf sp o.key with
+      | some h =>
+        -- an entry whose last record has certainly run out was finalised during this advance
+        if now > h + slack then dInsertIn sp (o.key.name, o.nonce) before (h + slack)
+        else dInsertAt sp (o.key.name, o.nonce) false now
+      | none => dInsertAt sp (o.key.name, o.nonce) false now) sp
   { sp with
     pends := sp.pends.filter fun p => keyPossible sp p.key
     outs := sp.outs.filter fun o => keyPossible sp o.key }
@@ -223,11 +237,14 @@ def labelOfTok (s : String) : Option Nat := if s.startsWith "T" then (s.drop 1).
 
 /-- C09 clause shared by both packet kinds -/
 def scopeFails (sp : SpSt) (obs : List Obs) : List SpecFail :=
-  obs.filterMap fun o =>
+  obs.flatMap fun o =>
     if nonLocal sp.faces o.face && specLocalhost o.name then
-      some (fail "C09-localhost-sent-nonlocal" (if o.isData then "data" else "interest")
-        s!"{if o.isData then "Data" else "Interest"} {o.name.toText} was sent on non-local face {o.face}")
-    else none
+      [fail "C09-localhost-sent-nonlocal" (if o.isData then "data" else "interest")
+        s!"{if o.isData then "Data" else "Interest"} {o.name.toText} was sent on non-local face {o.face}"] ++
+      -- C01: copies go to the pending faces "scope rules permitting"
+      (if o.isData then [fail "C01-scope-rule-ignored" "localhost"
+        s!"Data {o.name.toText} was delivered to non-local face {o.face} although the /localhost scope rule forbids it"] else [])
+    else []
 
 def onInterest (sp : SpSt) (f : FaceId) (i : Interest) (obs : List Obs) (pit cs : Nat) : SpSt × List SpecFail :=
   let isends := obs.filter (!·.isData)
